@@ -35,7 +35,7 @@ RULE = ("cases = (operation, input kind, element profile, input elements, varian
         "input a list is accepted (Appendix A; `drop` may also return a stream, it is read element-wise).  Dict "
         "inputs: only order-independent results are checked and compared as multisets; order-dependent operations "
         "get dicts of size 0/1 only.  group_all group order and every dict result are compared order-insensitively. "
-        "max/min may return any of several ==-equal extremal elements.  Left out as undocumented corners: window 0, "
+        "max/min may return any of several ==-equal extremal elements, but max(xs) / min(xs) must be the same element in the same representation as fold(xs, max) / fold(xs, min) computed by the interpreter.  Left out as undocumented corners: window 0, "
         "group 0, negative counts, take/drop n on non-ASCII strings (byte slicing, C10), the value forms of find/"
         "locate on strings (byte offset), ++ on strings or mixed kinds, cross-type sort, join of non-int/non-string "
         "elements (Display format), count(xs, value), sum/product(xs, f) and the return value of each (documented nowhere), "
